@@ -1010,7 +1010,9 @@ class Evaluator:
             re_, im_ = sp.Rational(*self.ext.float_ratio(repr(v.real))), sp.Rational(*self.ext.float_ratio(repr(v.imag)))
             return Num(re_ + sp.I * im_)
         if isinstance(v, str):
-            return StrV(v)
+            sv = StrV(v)
+            sv.literal = True        # a compile-time constant: CPython shares one object between equal constants (see identical())
+            return sv
         if v is Ellipsis:
             return ExtV("builtins.Ellipsis")
         self.unsupported("constant", e, fr)
@@ -1298,7 +1300,14 @@ class Evaluator:
         if isinstance(a, ClassV) or isinstance(b, ClassV):
             return False
         if isinstance(a, StrV) and isinstance(b, StrV):
-            return a.s == b.s
+            if a.s != b.s:
+                return False
+            if a is b or (getattr(a, "literal", False) and getattr(b, "literal", False)):
+                return True
+            # equal text, but at least one of the two was made by the caller at run time (read from a header, joined, decoded):
+            # nothing makes it the same object as a constant of the package -- `is` then answers False
+            self.trace.append(("string-identity", a.s))
+            return False
         if a is b:
             return True
         if isinstance(a, SigParamV) or isinstance(b, SigParamV):
